@@ -27,6 +27,7 @@ import (
 	"github.com/pancsta/asyncmachine-go/internal/utils"
 	amhist "github.com/pancsta/asyncmachine-go/pkg/history"
 	am "github.com/pancsta/asyncmachine-go/pkg/machine"
+	"github.com/pancsta/asyncmachine-go/pkg/x/simhook"
 )
 
 type MatcherFn func(now *am.TimeIndex, query *gorm.DB) *gorm.DB
@@ -1023,6 +1024,11 @@ func (m *Memory) writeDb(rLocked bool) {
 
 	// fork
 	go m.savePool.Go(func() error {
+		if rLocked {
+			simhook.At("hist.gorm.write", "batch")
+		} else {
+			simhook.At("hist.gorm.write", "sync")
+		}
 		if m.disposed.Load() {
 			return nil
 		}
